@@ -74,6 +74,22 @@ func Main(args []string) int {
 			return false
 		})
 		return 0
+	case "dbgadds":
+		p, err := Load(LoadConfig{Repo: "/repo"})
+		if err != nil {
+			fmt.Fprintln(os.Stderr, err)
+			return 1
+		}
+		DebugAdds(p, ResolveAnchors(p))
+		return 0
+	case "dbgreach":
+		p, err := Load(LoadConfig{Repo: "/repo"})
+		if err != nil {
+			fmt.Fprintln(os.Stderr, err)
+			return 1
+		}
+		DebugReach(p, ResolveAnchors(p), args[1])
+		return 0
 	case "dbgstrip":
 		p, err := Load(LoadConfig{Repo: "/repo"})
 		if err != nil {
@@ -83,12 +99,23 @@ func Main(args []string) int {
 		DebugStrip(p, ResolveAnchors(p))
 		return 0
 	case "anchors":
-		p, err := Load(LoadConfig{Repo: "/repo"})
+		fs := flag.NewFlagSet("anchors", flag.ExitOnError)
+		repo := fs.String("repo", "/repo", "repository")
+		pat := fs.String("reach", "", "list reachable functions whose name contains this")
+		_ = fs.Parse(args[1:])
+		p, err := Load(LoadConfig{Repo: *repo})
 		if err != nil {
 			fmt.Fprintln(os.Stderr, err)
 			return 1
 		}
 		a := ResolveAnchors(p)
+		if *pat != "" {
+			for _, fn := range p.RepoFuncs {
+				if strings.Contains(FuncName(fn), *pat) {
+					fmt.Println("reach", a.Reach[fn], "fg", a.ReachFg[fn], FuncName(fn))
+				}
+			}
+		}
 		for _, l := range a.Log {
 			fmt.Println(l)
 		}
